@@ -254,6 +254,18 @@ class CallGraph:
             if t0["k"] == "param" and t0["name"] in gens and (c["trait"], c["name"]) in self.trait_methods:
                 self.deferred.append((b, c, bi, gens.index(t0["name"])))
                 return
+        if not c["resolved"] and c["trait_item"] and c["targs"] and (c["trait"], c["name"]) in self.trait_methods:
+            # the Self type is concrete (a generic helper inlined back with its caller's type arguments): that type's impl
+            t0 = prog.types[b.crate][c["targs"][0]]
+            if t0["k"] == "adt":
+                hit = False
+                for tb in self.trait_methods.get((c["trait"], c["name"]), []):
+                    a = self._self_adt(tb)
+                    if a is not None and _same_adt(a, {t0["name"]}):
+                        self._add(b, tb.id, bi, "instantiated " + a.split("::")[-1])
+                        hit = True
+                if hit:
+                    return
         if not c["resolved"] and c["trait_item"]:
             # class-hierarchy approximation over local impls of the trait method
             hit = False
